@@ -98,7 +98,10 @@ func extractFromPath(path *Path, data []byte, optFuncs ...DecodeOptionFunc) ([][
 	ctx.Buf = src
 	ctx.Option.Flags = 0
 	ctx.Option.Flags |= decoder.PathOption
-	ctx.Option.Path = path.path
+	// the decoders move a cursor inside the Path while descending: work on a
+	// per-call copy so that a failed or concurrent Extract leaves the caller's Path intact
+	cursorPath := *path.path
+	ctx.Option.Path = &cursorPath
 	for _, optFunc := range optFuncs {
 		optFunc(ctx.Option)
 	}
